@@ -13,6 +13,7 @@ import (
 	"github.com/evolbioinfo/goalign/align"
 	"github.com/evolbioinfo/goalign/distance/protein"
 
+	"verif/lib/conc"
 	"verif/lib/gen"
 	"verif/lib/h"
 	"verif/lib/mon"
@@ -1084,6 +1085,7 @@ func main() {
 	mon.Floor("cli:distboot:no-seed", 8)
 	mon.Floor("cli:distboot:first-alignment-of-several", 15)
 	mon.Floor("long:sites>=120000", 8)
+	mon.Floor("concurrent:calls", 500)
 	mon.Main("C17", []mon.Sub{
 		{Name: "witness", Quick: len(witnesses), Thorough: len(witnesses), Run: runWitness},
 		{Name: "tables", Quick: 7, Thorough: 7, Run: runTables},
@@ -1091,6 +1093,7 @@ func main() {
 		{Name: "matrix", Quick: 8000, Thorough: 150000, Run: runMatrix},
 		{Name: "reinit", Quick: 600, Thorough: 10000, Run: runReinit},
 		{Name: "long", Quick: 10, Thorough: 96, Run: runLong},
+		{Name: "concurrent", Quick: 64, Thorough: 1200, Race: true, Run: func(c *mon.Case) { conc.Run(c, "aadist") }},
 		{Name: "cli", Quick: 510, Thorough: 6000, Run: runCli},
 	})
 }
